@@ -13,10 +13,292 @@ pub mod thread {
 
 pub mod sync {
     // `Arc`, `Weak`, `Once`, `Barrier` … stay std's (loom's `Arc` cannot be unsized to `Arc<dyn Fn>`).
-    pub use loom::sync::{
+    pub use self::locks::{
         Condvar, Mutex, MutexGuard, RwLock, RwLockReadGuard, RwLockWriteGuard,
     };
     pub use std::sync::*;
+
+    /// loom's locks behind std's API, with one addition. loom switches threads only in front of an
+    /// acquisition, so a critical section without a synchronisation operation inside is atomic for
+    /// its scheduler and `try_lock` / `try_read` / `try_write` could never be seen to fail. Every
+    /// guard therefore reads a per-lock probe cell just before it releases the lock, and every
+    /// `try_*` call writes that cell first: the two conflict, which makes loom explore the
+    /// schedules in which the `try_*` call runs while another thread holds the lock. Plain
+    /// `lock` / `read` / `write` calls only ever read the cell and add no schedules.
+    mod locks {
+        use loom::sync::atomic::{AtomicUsize, Ordering::Relaxed};
+        use std::fmt;
+        use std::ops::{Deref, DerefMut};
+        use std::sync::{LockResult, PoisonError, TryLockError, TryLockResult};
+
+        fn map_lock<G, W>(r: LockResult<G>, wrap: impl FnOnce(G) -> W) -> LockResult<W> {
+            match r {
+                Ok(g) => Ok(wrap(g)),
+                Err(p) => Err(PoisonError::new(wrap(p.into_inner()))),
+            }
+        }
+
+        fn map_try<G, W>(r: TryLockResult<G>, wrap: impl FnOnce(G) -> W) -> TryLockResult<W> {
+            match r {
+                Ok(g) => Ok(wrap(g)),
+                Err(TryLockError::WouldBlock) => Err(TryLockError::WouldBlock),
+                Err(TryLockError::Poisoned(p)) => {
+                    Err(TryLockError::Poisoned(PoisonError::new(wrap(p.into_inner()))))
+                }
+            }
+        }
+
+        pub struct Mutex<T> {
+            inner: loom::sync::Mutex<T>,
+            probe: AtomicUsize,
+        }
+
+        pub struct MutexGuard<'a, T> {
+            inner: Option<loom::sync::MutexGuard<'a, T>>,
+            probe: &'a AtomicUsize,
+        }
+
+        impl<T> Mutex<T> {
+            pub fn new(t: T) -> Self {
+                Mutex {
+                    inner: loom::sync::Mutex::new(t),
+                    probe: AtomicUsize::new(0),
+                }
+            }
+            pub fn lock(&self) -> LockResult<MutexGuard<'_, T>> {
+                map_lock(self.inner.lock(), |g| MutexGuard {
+                    inner: Some(g),
+                    probe: &self.probe,
+                })
+            }
+            pub fn try_lock(&self) -> TryLockResult<MutexGuard<'_, T>> {
+                self.probe.fetch_add(1, Relaxed);
+                map_try(self.inner.try_lock(), |g| MutexGuard {
+                    inner: Some(g),
+                    probe: &self.probe,
+                })
+            }
+            pub fn into_inner(self) -> LockResult<T> {
+                self.inner.into_inner()
+            }
+            pub fn get_mut(&mut self) -> LockResult<&mut T> {
+                self.inner.get_mut()
+            }
+            pub fn is_poisoned(&self) -> bool {
+                false
+            }
+            pub fn clear_poison(&self) {}
+        }
+
+        impl<T: Default> Default for Mutex<T> {
+            fn default() -> Self {
+                Mutex::new(T::default())
+            }
+        }
+
+        impl<T> From<T> for Mutex<T> {
+            fn from(t: T) -> Self {
+                Mutex::new(t)
+            }
+        }
+
+        impl<T> fmt::Debug for Mutex<T> {
+            fn fmt(&self, f: &mut fmt::Formatter<'_>) -> fmt::Result {
+                f.write_str("Mutex { .. }")
+            }
+        }
+
+        impl<T> Deref for MutexGuard<'_, T> {
+            type Target = T;
+            fn deref(&self) -> &T {
+                self.inner.as_ref().unwrap()
+            }
+        }
+
+        impl<T> DerefMut for MutexGuard<'_, T> {
+            fn deref_mut(&mut self) -> &mut T {
+                self.inner.as_mut().unwrap()
+            }
+        }
+
+        impl<T: fmt::Debug> fmt::Debug for MutexGuard<'_, T> {
+            fn fmt(&self, f: &mut fmt::Formatter<'_>) -> fmt::Result {
+                fmt::Debug::fmt(&**self, f)
+            }
+        }
+
+        impl<T> Drop for MutexGuard<'_, T> {
+            fn drop(&mut self) {
+                if self.inner.is_some() {
+                    // still holding the lock here; it is released when `inner` is dropped
+                    self.probe.load(Relaxed);
+                }
+            }
+        }
+
+        pub struct Condvar {
+            inner: loom::sync::Condvar,
+        }
+
+        impl Condvar {
+            pub fn new() -> Self {
+                Condvar {
+                    inner: loom::sync::Condvar::new(),
+                }
+            }
+            pub fn wait<'a, T>(&self, mut guard: MutexGuard<'a, T>) -> LockResult<MutexGuard<'a, T>> {
+                let probe = guard.probe;
+                let inner = guard.inner.take().unwrap();
+                drop(guard);
+                map_lock(self.inner.wait(inner), |g| MutexGuard {
+                    inner: Some(g),
+                    probe,
+                })
+            }
+            pub fn wait_while<'a, T, F: FnMut(&mut T) -> bool>(
+                &self,
+                mut guard: MutexGuard<'a, T>,
+                mut condition: F,
+            ) -> LockResult<MutexGuard<'a, T>> {
+                while condition(&mut *guard) {
+                    guard = self.wait(guard)?;
+                }
+                Ok(guard)
+            }
+            pub fn notify_one(&self) {
+                self.inner.notify_one()
+            }
+            pub fn notify_all(&self) {
+                self.inner.notify_all()
+            }
+        }
+
+        impl Default for Condvar {
+            fn default() -> Self {
+                Condvar::new()
+            }
+        }
+
+        impl fmt::Debug for Condvar {
+            fn fmt(&self, f: &mut fmt::Formatter<'_>) -> fmt::Result {
+                f.write_str("Condvar { .. }")
+            }
+        }
+
+        pub struct RwLock<T> {
+            inner: loom::sync::RwLock<T>,
+            probe: AtomicUsize,
+        }
+
+        pub struct RwLockReadGuard<'a, T> {
+            inner: Option<loom::sync::RwLockReadGuard<'a, T>>,
+            probe: &'a AtomicUsize,
+        }
+
+        pub struct RwLockWriteGuard<'a, T> {
+            inner: Option<loom::sync::RwLockWriteGuard<'a, T>>,
+            probe: &'a AtomicUsize,
+        }
+
+        impl<T> RwLock<T> {
+            pub fn new(t: T) -> Self {
+                RwLock {
+                    inner: loom::sync::RwLock::new(t),
+                    probe: AtomicUsize::new(0),
+                }
+            }
+            pub fn read(&self) -> LockResult<RwLockReadGuard<'_, T>> {
+                map_lock(self.inner.read(), |g| RwLockReadGuard {
+                    inner: Some(g),
+                    probe: &self.probe,
+                })
+            }
+            pub fn write(&self) -> LockResult<RwLockWriteGuard<'_, T>> {
+                map_lock(self.inner.write(), |g| RwLockWriteGuard {
+                    inner: Some(g),
+                    probe: &self.probe,
+                })
+            }
+            pub fn try_read(&self) -> TryLockResult<RwLockReadGuard<'_, T>> {
+                self.probe.fetch_add(1, Relaxed);
+                map_try(self.inner.try_read(), |g| RwLockReadGuard {
+                    inner: Some(g),
+                    probe: &self.probe,
+                })
+            }
+            pub fn try_write(&self) -> TryLockResult<RwLockWriteGuard<'_, T>> {
+                self.probe.fetch_add(1, Relaxed);
+                map_try(self.inner.try_write(), |g| RwLockWriteGuard {
+                    inner: Some(g),
+                    probe: &self.probe,
+                })
+            }
+            pub fn into_inner(self) -> LockResult<T> {
+                self.inner.into_inner()
+            }
+            pub fn get_mut(&mut self) -> LockResult<&mut T> {
+                self.inner.get_mut()
+            }
+            pub fn is_poisoned(&self) -> bool {
+                false
+            }
+            pub fn clear_poison(&self) {}
+        }
+
+        impl<T: Default> Default for RwLock<T> {
+            fn default() -> Self {
+                RwLock::new(T::default())
+            }
+        }
+
+        impl<T> From<T> for RwLock<T> {
+            fn from(t: T) -> Self {
+                RwLock::new(t)
+            }
+        }
+
+        impl<T> fmt::Debug for RwLock<T> {
+            fn fmt(&self, f: &mut fmt::Formatter<'_>) -> fmt::Result {
+                f.write_str("RwLock { .. }")
+            }
+        }
+
+        impl<T> Deref for RwLockReadGuard<'_, T> {
+            type Target = T;
+            fn deref(&self) -> &T {
+                self.inner.as_ref().unwrap()
+            }
+        }
+
+        impl<T> Drop for RwLockReadGuard<'_, T> {
+            fn drop(&mut self) {
+                if self.inner.is_some() {
+                    self.probe.load(Relaxed);
+                }
+            }
+        }
+
+        impl<T> Deref for RwLockWriteGuard<'_, T> {
+            type Target = T;
+            fn deref(&self) -> &T {
+                self.inner.as_ref().unwrap()
+            }
+        }
+
+        impl<T> DerefMut for RwLockWriteGuard<'_, T> {
+            fn deref_mut(&mut self) -> &mut T {
+                self.inner.as_mut().unwrap()
+            }
+        }
+
+        impl<T> Drop for RwLockWriteGuard<'_, T> {
+            fn drop(&mut self) {
+                if self.inner.is_some() {
+                    self.probe.load(Relaxed);
+                }
+            }
+        }
+    }
 
     pub mod atomic {
         pub use loom::sync::atomic::*;
